@@ -32,6 +32,33 @@ import mdtraj as md  # noqa: E402
 G = 1024.0
 
 
+class _Spy:
+    """records what Trajectory.image_molecules / make_molecules_whole hand to the kernels (mdtraj.core.trajectory._geometry):
+    the atom-index arrays of the anchor / other molecules exactly as passed, and the bond walk"""
+
+    def __init__(self, real):
+        self._real = real
+        self.calls = []
+
+    def __getattr__(self, name):
+        f = getattr(self._real, name)
+        if name in ("image_molecules", "whole_molecules"):
+            def g(*a, **k):
+                self.calls.append((name, a))
+                return f(*a, **k)
+            return g
+        return f
+
+
+try:
+    import mdtraj.core.trajectory as _tj
+    SPY = _Spy(_tj._geometry) if hasattr(_tj, "_geometry") else None
+    if SPY is not None:
+        _tj._geometry = SPY
+except Exception:  # noqa: BLE001
+    SPY = None
+
+
 def build(case):
     frames = case["frames"]
     n = len(frames[0]["xyz"])
@@ -93,11 +120,30 @@ def run_case(case):
                     anc = t.topology.guess_anchor_molecules()
                 mols = t.topology.find_molecules()
                 out["others_used"] = [[a.index for a in mol] for mol in mols if mol not in anc]
+            if SPY is not None:
+                SPY.calls.clear()
             res = t.image_molecules(**kw)
+            call = next((a for nm, a in (SPY.calls if SPY is not None else []) if nm == "image_molecules" and len(a) >= 5), None)
+            if call is not None:
+                # what the kernel really received (atom order included), instead of the replica of the expressions above
+                try:
+                    out["anchors_used"] = [[int(x) for x in m] for m in call[2]]
+                    out["others_used"] = [[int(x) for x in m] for m in call[3]]
+                    out["kernel_args_observed"] = True
+                    out["kernel_walk_len"] = None if call[4] is None else int(len(call[4]))
+                except Exception:  # noqa: BLE001
+                    pass
         try:      # Topology.find_molecules as a partition: atom lists ascending, molecules in their own order
             out["molecules"] = [sorted(a.index for a in mol) for mol in t.topology.find_molecules()]
         except ValueError:
             out["molecules"] = None
+        # Topology.guess_anchor_molecules: molecules in its order (atom lists ascending), "refused" when it finds none
+        try:
+            out["guessed"] = [sorted(a.index for a in mol) for mol in t.topology.guess_anchor_molecules()]
+        except ValueError as e:
+            out["guessed"] = "refused" if "Could not find any anchor molecules" in str(e) else "error"
+        except Exception:  # noqa: BLE001
+            out["guessed"] = "error"
         out["returned_is_self"] = res is t
         out["orig_xyz_same"] = bool(np.array_equal(t.xyz.view(np.uint32), before["xyz"].view(np.uint32)))
         out["orig_cell_same"] = bool(np.array_equal(t.unitcell_lengths, before["ul"]) and np.array_equal(t.unitcell_angles, before["ua"]))
